@@ -505,6 +505,12 @@ def r3(ctx):
     prov = Prov(rem, facts)
     g = Guards(rem, prov, facts)
     removes = [bi for bi, t in find_calls(rem, r"hash_map::OccupiedEntry::<.*>::remove(_entry)?$", r"hash_map::OccupiedEntry::remove(_entry)?$")]
+    # the same written with get_mut + remove(&key): the key removed must be the address whose counter was decremented
+    p_name = rem.local_name(2) or "socket_addr"
+    for bi, t in rem.calls():
+        if callee_matches(t, r"HashMap::<.*>::remove$", r"HashMap::remove$") and len(t.args) == 2 and fmt_short(prov.operand(t.args[1])) == p_name and \
+                "filter_expected_responses" in fmt_short(prov.operand(t.args[0])):
+            removes.append(bi)
     nonzero_edges = []
     for bi, t, e in g.switches():
         c = comparison(e)
@@ -514,7 +520,8 @@ def r3(ctx):
             other = c[1] if (z[1] == 0 or fmt_short(c[2]) in ("promoted", "0")) else (c[2] if (z[0] == 0 or fmt_short(c[1]) in ("promoted", "0")) else None)
             if other is None:
                 continue
-            if not any(x[0] == "call" and short(x[1]).endswith("OccupiedEntry::get_mut") for x in walk(other)):
+            if not any(x[0] == "call" and (short(x[1]).endswith("OccupiedEntry::get_mut") or
+                                            (short(x[1]).endswith("HashMap::get_mut") and "filter_expected_responses" in fmt_short(x))) for x in walk(other)):
                 continue
             f, tr = g.bool_edges(bi)
             nonzero_edges.append((bi, f if c[0] == "==" else tr))
